@@ -1,4 +1,5 @@
 import MJ.Model.Kernels
+import MJ.Model.Stk
 /-! Line driver for C01: `k <kernel> <args…>` case lines (as `harness/src/bin/c01.rs` names them) →
     `case<TAB>model result`, in the harness' canonical form (`ok:…`, `err`, `panic`); `-` for cases
     the model does not cover. -/
@@ -100,11 +101,75 @@ def handle (case : String) : String :=
     | _, _ => "bad-case"
   | _ => "-"
 
+/-! ### operand-stack translation validation: `S <TAB> id <TAB> stream <TAB> tok tok …` -/
+namespace StkDrive
+open MJ.Stk
+
+def nats (s : String) : List (Option Nat) := ((s.splitOn ":").drop 1).map (·.toNat?)
+
+def parseTok (s : String) : Option Instr :=
+  match (s.splitOn ":").head!, nats s with
+  | "e", [some a, some b] => some (.eff a b)
+  | "z", [] => some .loadZero
+  | "o", [] => some .loadOne
+  | "ll", [some m] => some (.loadList m)
+  | "bl", [some n] => some (.buildList n)
+  | "bd", [] => some .buildDyn
+  | "ul", [some n] => some (.unpackLists n)
+  | "call", [some n, some r, some f] => some (.call n (r == 1) (f == 1))
+  | "cdyn", [some r, some f] => some (.callDyn (r == 1) (f == 1))
+  | "sw", [] => some .swap
+  | "add", [] => some .add
+  | "dup", [] => some .dupTop
+  | "bm", [some o, some n] => some (.buildMacro o n)
+  | "pl", [some r] => some (.pushLoop (r == 1))
+  | "it", [some t] => some (.iterate t)
+  | "plf", [] => some .popLoopFrame
+  | "j", [some t] => some (.jump t)
+  | "jf", [some t] => some (.jumpIfFalse t)
+  | "jfp", [some t] => some (.jumpIfFalseOrPop t)
+  | "jtp", [some t] => some (.jumpIfTrueOrPop t)
+  | "fr", [] => some .fastRecurse
+  | "ret", [] => some .ret
+  | _, _ => none
+
+def parseCode (s : String) : Option Code :=
+  let toks := (s.splitOn " ").filter (· ≠ "")
+  (toks.mapM parseTok).map List.toArray
+
+def showAE : AE → String
+  | .v => "v" | .z => "0" | .o => "1" | .l m => s!"L{m}" | .s m => s!"S{m}" | .p m => s!"P{m}"
+
+def showAbs (a : Abs) : String := s!"[{" ".intercalate (a.stk.map showAE)}] loops={a.loops}"
+
+/-- untrusted: the first pc the checker refuses -/
+def diagnose (code : Code) (cert : Cert) : String :=
+  match (List.range cert.size).find? (fun pc => !checkPc code cert pc) with
+  | some pc => s!"pc={pc} {reprStr code[pc]?} state {(look cert pc).map showAbs}"
+  | none =>
+    match (entries code).find? (fun e => look cert e.1 ≠ some ⟨List.replicate e.2 .v, []⟩) with
+    | some e => s!"entry {e} not certified with its initial stack"
+    | none => "a recursive loop is not certified"
+
+def handle (toks : String) : String :=
+  match parseCode toks with
+  | none => "bad-tokens"
+  | some code =>
+    let cert := inferStk code
+    if checkStk code cert then
+      let hmax := (List.range cert.size).foldl (fun m pc => max m ((look cert pc).map (·.stk.length) |>.getD 0)) 0
+      s!"ok n={code.size} maxheight={hmax}"
+    else s!"reject {diagnose code cert}"
+
+end StkDrive
+
 partial def loop (h : IO.FS.Stream) (out : IO.FS.Stream) : IO Unit := do
   let line ← h.getLine
   if line.isEmpty then return ()
   let case := (line.dropEndWhile (· == '\n')).toString
-  out.putStrLn s!"{case}\t{handle case}"
+  match case.splitOn "\t" with
+  | ["S", id, name, toks] => out.putStrLn s!"S\t{id}\t{name}\t{StkDrive.handle toks}"
+  | _ => out.putStrLn s!"{case}\t{handle case}"
   loop h out
 
 def main : IO Unit := do
